@@ -457,12 +457,13 @@ func (ch *ch) handleRegisteredEvent(
 		log.Debugf("Registering latest version (%d)", latestTx.Version)
 		err := registerDispute(ctx, chRegistry, registerer, parent)
 		if err != nil {
+			// The event is relayed to the client all the same: the client must
+			// learn that the channel is registered, or it can never settle it.
 			log.Error("Error registering dispute: ", err)
-			return
+		} else {
+			log.Debug("Registered successfully")
+			ch.registered = true
 		}
-
-		log.Debug("Registered successfully")
-		ch.registered = true
 	}
 
 	if !ch.published || ch.publishedVersion < e.Version() {
